@@ -298,3 +298,69 @@ func (g Gate) ReportSendable(week string) bool {
 	}
 	return true
 }
+
+// ReportValid is the documented validity of an uploaded report: a real
+// calendar date as week, a semantic-version config, a non-zero X, and only
+// approved contents (strict build rule).
+func ReportValid(cfg *telemetry.UploadConfig, r *telemetry.Report) (bool, string) {
+	if len(r.Week) != 10 {
+		return false, "week"
+	}
+	if _, err := time.Parse("2006-01-02", r.Week); err != nil {
+		return false, "week"
+	}
+	if !canonicalSemver(r.Config) {
+		return false, "config"
+	}
+	if r.X == 0 {
+		return false, "x"
+	}
+	for _, p := range r.Programs {
+		if p == nil {
+			return false, "null program"
+		}
+		if !BuildApprovedStrict(cfg, Build{p.Program, p.Version, p.GoVersion, p.GOOS, p.GOARCH}) {
+			return false, "build"
+		}
+		for c := range p.Counters {
+			if _, ok := CounterRate(cfg, p.Program, c); !ok {
+				return false, "counter " + c
+			}
+		}
+		for s := range p.Stacks {
+			if _, ok := StackRate(cfg, p.Program, s); !ok {
+				return false, "stack " + s
+			}
+		}
+	}
+	return true, ""
+}
+
+// canonicalSemver: vMAJOR.MINOR.PATCH[-pre][+build] with numeric parts without leading zeros.
+func canonicalSemver(v string) bool {
+	if !strings.HasPrefix(v, "v") {
+		return false
+	}
+	core := v[1:]
+	if i := strings.IndexAny(core, "-+"); i >= 0 {
+		if i+1 >= len(core) {
+			return false
+		}
+		core = core[:i]
+	}
+	parts := strings.Split(core, ".")
+	if len(parts) != 3 {
+		return false
+	}
+	for _, p := range parts {
+		if p == "" || (len(p) > 1 && p[0] == '0') {
+			return false
+		}
+		for _, c := range p {
+			if c < '0' || c > '9' {
+				return false
+			}
+		}
+	}
+	return true
+}
